@@ -181,6 +181,7 @@ type Exec struct {
 	instCtr  int
 	epochCtr int
 	maxDepth int
+	inlineSet bool
 	sweep    bool // zero-annotation safety sweep: infer loop invariants
 	noSafety bool // suppress safety obligations (functional contracts only)
 	cands    []*candidate
@@ -245,6 +246,7 @@ type frame struct {
 	callOcc map[string]int
 	outer   []*loopInfo // loops of callers that are active around this inlined call
 	retPoints []retPoint
+	assertAt  map[ssa.Instruction][]*Clause // anchored assertions by instruction (assert.go)
 }
 
 // active lists the loops whose body is being executed at the current block.
@@ -587,6 +589,9 @@ func (x *Exec) runSeeded(fr *frame, st *State) ([]Value, *State) {
 				x.flow(fr, in, b, b.Succs[0], cur)
 				dead = true
 			case *ssa.Return:
+				if fr.con != nil && len(fr.con.Asserts) > 0 && fr.depth == 0 {
+					x.checkAsserts(fr, cur, ins)
+				}
 				vals := make([]Value, len(t.Results))
 				for i, r := range t.Results {
 					vals[i] = x.val(fr, r)
